@@ -24,6 +24,8 @@ func init() {
 
 func runC15(p *eng.Prog, r *eng.Report, tier string) {
 	c := &cx{p, r, tier}
+	c15CarrierTypes(c, "C15.24")
+	c.r.Floor("C15.25", "blocking channel operations in ibb", lockHeldAcrossChannelOp(c, "C15.25", "ibb."), 3)
 	c15Open(c)
 	c15Payload(c)
 	c15Seq(c)
@@ -1174,4 +1176,77 @@ func c15EverySentPacketCounted(c *cx, id string) {
 		c.r.Check(id, f, "packet counted before Write reports success", "O: every return of stanzaWriter.Write whose error may be nil has passed seq++", rs.Pos(), g.MustPassBefore(g.Entry(), rp, isInc, nil), "a packet can be sent without advancing the sequence number: the next packet repeats it and is refused")
 	}
 	c.r.Floor(id, "non-error returns of stanzaWriter.Write", n, 1)
+}
+
+// c15CarrierTypes (C15.24): the packets of a stream arrive as IQs of type set
+// or as messages. An error reply of the peer - the bounce of one of OUR data
+// messages comes back with type error, the original <data/> payload and an
+// <error/> - is not a packet: routed to the data handler it is taken for the
+// peer's data with that seq and the peer's real packet is refused. Handle
+// registers the data handler for no message of type error and the IQ handlers
+// for type set only; the type of every registration is a constant named in
+// Handle (directly or through a range over a literal of such constants).
+func c15CarrierTypes(c *cx, id string) {
+	f := c.fn(id, "ibb", "Handle")
+	if f == nil {
+		return
+	}
+	fns := []*eng.Fn{f}
+	var addLits func(x *eng.Fn)
+	addLits = func(x *eng.Fn) {
+		for _, l := range x.Lits {
+			fns = append(fns, l)
+			addLits(l)
+		}
+	}
+	addLits(f)
+	consts := map[string]bool{}
+	n := 0
+	for _, fn := range fns {
+		fn.WalkBody(func(nd ast.Node) bool {
+			if idn, ok := nd.(*ast.Ident); ok {
+				if k, ok := fn.Info().Uses[idn].(*types.Const); ok {
+					switch eng.TypeStr(k.Type()) {
+					case "stanza.MessageType", "stanza.IQType":
+						consts[eng.TypeStr(k.Type())+":"+k.Name()] = true
+					}
+				}
+			}
+			return true
+		})
+		for _, callee := range []string{"mux.Message", "mux.IQ", "mux.MessageFunc", "mux.IQFunc"} {
+			for _, cl := range fn.Calls(callee) {
+				n++
+				a := ast.Unparen(cl.Args[0])
+				okArg := false
+				if tv, ok := fn.Info().Types[a]; ok && tv.Value != nil {
+					okArg = true
+				} else if v := fn.Graph().LocalVar(a); v != nil {
+					okArg = true
+					for _, d := range fn.Graph().DefsOf(v) {
+						if d.Kind != eng.DefRange {
+							okArg = false
+							continue
+						}
+						if _, isLit := ast.Unparen(d.RHS).(*ast.CompositeLit); !isLit {
+							okArg = false
+						}
+					}
+				}
+				c.r.Check(id, fn, "stanza type of a registration", "K: the type a handler is registered for is a constant named in Handle", cl.Pos(), okArg, "the type is computed: "+fn.Norm(a, nil))
+			}
+		}
+	}
+	c.r.Floor(id, "registrations in ibb.Handle", n, 4)
+	var bad []string
+	for k := range consts {
+		switch k {
+		case "stanza.MessageType:ErrorMessage":
+			bad = append(bad, k+" (a bounced data message is taken for the peer's data)")
+		case "stanza.IQType:ResultIQ", "stanza.IQType:ErrorIQ", "stanza.IQType:GetIQ":
+			bad = append(bad, k+" (packets are IQs of type set)")
+		}
+	}
+	sort.Strings(bad)
+	c.r.Check(id, f, "stanza types ibb.Handle registers for", "T: no message of type error and only IQs of type set carry packets", f.Pos(), len(bad) == 0, strings.Join(bad, "; "))
 }
